@@ -30,7 +30,8 @@ def proxy_script(seq, scen, capture, rng=None):
             # client 2 closes its connection in an orderly way, the proxy notices, and the client comes back under its identity
             if cur[2] < 8:
                 new = 6 if cur[2] == 2 else cur[2] + 1
-                ops += [{"op": "pclose", "c": cur[2]}, {"op": "drive"}, {"op": "attach", "c": new, "side": "front", "ptype": "DEALER", "ident": hx("cli2")}]
+                # (in every other history the client is back before the proxy has noticed that the old connection closed)
+                ops += [{"op": "pclose", "c": cur[2]}] + ([{"op": "drive"}] if scen % 2 else []) + [{"op": "attach", "c": new, "side": "front", "ptype": "DEALER", "ident": hx("cli2")}]
                 cur[2] = new
         elif o in ("rep1", "rep2"):
             c = int(o[-1]); nr += 1
